@@ -1,4 +1,347 @@
-import SdbModel.Model.Table
-/-! # C08 — theorems under construction (see DESIGN.md section 4) -/
+import SdbModel.Lemmas.ChangesRun
+
+/-!
+# C08 — Graveyard: retention until delivered, collection afterwards, invisibility
+
+> A deleted object is retained as long as some open change iterator created before the deletion has not
+> yet been handed that deletion, however collection runs interleave with re-insertions, re-deletions,
+> new iterators and iterator closes.  Once every such iterator has been handed it or has been closed, it
+> is eventually discarded, so with all iterators caught up the number of retained deleted objects returns
+> to zero, and with no open iterator nothing is retained.  Retained objects never appear in queries or
+> object counts.
+
+Theorems over `Model.Table` (`modify`, `delete`, `gcScan`, `gcApply`, `DB.trackerRevOf`) and the
+iterator steps restated in `Lemmas/ChangesRun.lean`.  Table level, under the table invariant `Chg.TInv`
+(which every reachable table satisfies): the scan selects nothing above the low watermark, the
+collector's write removes exactly the listed revision keys that are still present, graveyard and
+graveyard-revision index stay in bijection, retained objects are invisible to primary / revision
+queries, `All` and `NumObjects`.  Database level, for EVERY state reachable (`Chg.Reach`) by write
+transactions, `Changes()`, `Next`, `Close`, paused and immediate collector runs in any interleaving:
+whatever key the consumer of an iterator in good standing (`Chg.Live`: tracker registered in the committed
+root, or created in the open write transaction on a table that transaction had not written) still holds and that is no longer live is
+retained above the iterator's delete cursor (`C08_reachable_retention`), no collector step removes such an
+object (`C08_collector_spares_undelivered`), and a run with all trackers caught up empties the graveyard.
+-/
 namespace Sdb
+open Tbl Chg Chg.OMap
+
+/-! ## (a) the scan and the collector's write -/
+
+/-- the scan selects only graveyard entries at or below the low watermark: below the table revision and
+    below the revision of EVERY registered tracker -/
+theorem C08_scan_below_watermark (db : DB) (i : Nat) (k : Key) (hk : k ∈ deadKeys (gcScan db) i) :
+    ∃ o, (k, o) ∈ (tbl db.root i).graveRev ∧ o.rev ≤ (tbl db.root i).rev ∧
+      ∀ id ∈ (tbl db.root i).trackers, o.rev ≤ db.trackerRevOf id := by
+  rw [deadKeys_gcScan] at hk
+  obtain ⟨o, hm, hle⟩ := mem_scanKeys db _ k hk
+  refine ⟨o, hm, Nat.le_trans hle (lowWatermark_le_rev _ _), fun id hid => ?_⟩
+  exact Nat.le_trans hle (lowWatermark_le_tracker db _ id hid)
+
+/-- **retained while some registered tracker has not passed it**: such an entry is never selected -/
+theorem C08_scan_retains_unpassed (db : DB) (i : Nat) (h : TInv (tbl db.root i)) (k : Key) (o : Obj)
+    (hm : (k, o) ∈ (tbl db.root i).graveRev) (id : Nat) (hid : id ∈ (tbl db.root i).trackers)
+    (hlt : db.trackerRevOf id < o.rev) : k ∉ deadKeys (gcScan db) i := by
+  rw [deadKeys_gcScan]
+  exact scanKeys_retains h db k o hm id hid hlt
+
+/-- the collector's write removes from the graveyard-revision index exactly the listed keys (those
+    still present), and from the graveyard exactly the objects whose CURRENT revision key is listed;
+    everything else of the table is untouched -/
+theorem C08_apply_removes_exactly (db : DB) (dead : List (Nat × List Key)) (i : Nat) (h : TInv (tbl db.root i)) :
+    let t := tbl db.root i
+    let t' := tbl (gcApply db dead).root i
+    (∀ k x, (k, x) ∈ t'.graveRev ↔ (k, x) ∈ t.graveRev ∧ k ∉ deadKeys dead i) ∧
+    (∀ k x, (k, x) ∈ t'.grave ↔ (k, x) ∈ t.grave ∧ revKey x.rev ∉ deadKeys dead i) ∧
+    t'.primary = t.primary ∧ t'.revIdx = t.revIdx ∧ t'.rev = t.rev ∧ t'.trackers = t.trackers := by
+  simp only
+  have e : tbl (gcApply db dead).root i = gcTable (tbl db.root i) (deadKeys dead i) := gcApply_getD db dead i
+  rw [e]
+  obtain ⟨m1, m2⟩ := gcTable_mem h (deadKeys dead i)
+  obtain ⟨f1, f2, f3, f4, _⟩ := gcTable_fields (tbl db.root i) (deadKeys dead i)
+  exact ⟨m1, m2, f2, f3, f1, f4⟩
+
+/-- a stale scan does not remove an object that was re-inserted and re-deleted meanwhile: its new
+    graveyard entry has a revision above the table revision at scan time, hence a revision key the scan
+    cannot have listed -/
+theorem C08_stale_scan_spares_redeleted (db₀ : DB) (t₀ t : TableS) (h₀ : TInv t₀) (h : TInv t)
+    (k : Key) (g : Obj) (hg : (k, g) ∈ t.grave) (hnew : t₀.rev < g.rev) :
+    (k, g) ∈ (gcTable t (scanKeys db₀ t₀)).grave := by
+  rw [(gcTable_mem h _).2]
+  refine ⟨hg, fun hin => ?_⟩
+  obtain ⟨o, hm, _⟩ := mem_scanKeys db₀ t₀ _ hin
+  obtain ⟨e, hle⟩ := h₀.grK _ _ hm
+  have hgk := h.gK _ _ hg
+  have hgr := (h.grK _ _ ((h.gg g).mp (hgk ▸ hg))).2
+  have hb := h.bound
+  have hb₀ := h₀.bound
+  have := revKey_inj _ _ (by omega) (by omega) e
+  omega
+
+/-! ## (b) the graveyard invariant -/
+
+/-- graveyard and graveyard-revision index hold the same objects -/
+theorem C08_grave_bijection (t : TableS) (h : TInv t) (o : Obj) :
+    (o.id, o) ∈ t.grave ↔ (revKey o.rev, o) ∈ t.graveRev := h.gg o
+
+/-- the table invariant (sortedness of all four indexes, keys = own id / own revision, the two
+    bijections, graveyard disjoint from the live objects by id and by revision) is preserved by `modify` -/
+theorem C08_invariant_modify (t : TableS) (h : TInv t) (g : Nat) (o : Obj) (m : Bool)
+    (hb : (modify t g o m).1.rev + 1 < 2 ^ 64) : TInv (modify t g o m).1 := tinv_modify h g o m hb
+
+/-- … by `delete` -/
+theorem C08_invariant_delete (t : TableS) (h : TInv t) (g : Nat) (id : Key)
+    (hb : (delete t g id).1.rev + 1 < 2 ^ 64) : TInv (delete t g id).1 := tinv_delete h g id hb
+
+/-- … and by the collector's write, for every table of the database -/
+theorem C08_invariant_gcApply (db : DB) (dead : List (Nat × List Key)) (h : ∀ i, TInv (tbl db.root i)) :
+    ∀ i, TInv (tbl (gcApply db dead).root i) := by
+  intro i
+  have e : tbl (gcApply db dead).root i = gcTable (tbl db.root i) (deadKeys dead i) := gcApply_getD db dead i
+  rw [e]
+  exact tinv_gcTable (h i) _
+
+/-- it holds for every reachable table -/
+theorem C08_table_invariant_reachable (t : TableS) (h : TReach t) : TInv t := h.tinv
+
+/-- a re-insert removes the object from the graveyard (both indexes) -/
+theorem C08_reinsert_leaves_graveyard (t : TableS) (h : TInv t) (g : Nat) (o : Obj) (m : Bool)
+    (hok : (modify t g o m).2.2 = .ok) :
+    ∀ x, (o.id, x) ∉ (modify t g o m).1.grave := by
+  intro x hx
+  rcases modify_mem h g o m with e | ⟨_, _, _, hp, hg, _⟩
+  · -- the write was rejected: impossible when it reports ok
+    have := modify_ok_rev t g o m hok
+    rw [e] at this; omega
+  · have := (hg _ _).mp hx
+    cases hold : t.primary.get o.id with
+    | none => exact this.2 hold rfl
+    | some oo =>
+      exact h.disj _ _ _ this.1 ((get_eq_some_iff h.pS _ _).mp hold)
+
+/-- **retained objects are invisible**: not found by primary key, not listed by `All`, their graveyard
+    revision is not in the revision index -/
+theorem C08_retained_invisible (t : TableS) (h : TInv t) (k : Key) (g : Obj) (hg : (k, g) ∈ t.grave) :
+    qGet t .id k 0 = none ∧ (∀ o ∈ qAll t, o.id ≠ k) ∧ qGet t .rev (revKey g.rev) 0 = none :=
+  grave_invisible h k g hg
+
+/-- `NumObjects` counts the live objects only -/
+theorem C08_numObjects_live_only (t : TableS) (h : TInv t) : numObjects t = (qAll t).length :=
+  numObjects_eq_all h
+
+/-- … so a delete that retains the object still lowers the count by one -/
+theorem C08_delete_lowers_count (t : TableS) (h : TInv t) (g : Nat) (id : Key) (old : Obj)
+    (hold : t.primary.get id = some old) (hok : (delete t g id).2.2 = .ok) (hl : t.locked = true) :
+    numObjects (delete t g id).1 + 1 = numObjects t := by
+  rcases delete_spec t g id with e | ⟨_, _, old', hold', _, _, hr, _⟩
+  · have := delete_ok_rev t g id old hold hok hl
+    rw [e] at this; omega
+  · unfold numObjects
+    rw [hr]
+    rw [hold] at hold'; cases hold'
+    have hm := (get_eq_some_iff h.pS _ _).mp hold
+    have hid := h.pK _ _ hm
+    have hrm : (revKey old.rev, old) ∈ t.revIdx := (h.pr old).mp (hid ▸ hm)
+    -- erasing a present key shortens a sorted map by one
+    have : ∀ (m : OMap Obj) (k : Key) (v : Obj), Sorted m → (k, v) ∈ m → (m.erase k).length + 1 = m.length := by
+      intro m
+      induction m with
+      | nil => intro k v _ hm; cases hm
+      | cons a r ih =>
+        intro k v hS hm
+        obtain ⟨k0, v0⟩ := a
+        simp only [OMap.erase]
+        cases hc : cmpL k0 k with
+        | eq => simp
+        | lt =>
+          simp only [List.length_cons]
+          have hk : k0 ≠ k := cmpL_ne_of_lt _ _ hc
+          simp only [List.mem_cons, Prod.mk.injEq] at hm
+          rcases hm with ⟨e, _⟩ | hm
+          · exact absurd e.symm hk
+          · rw [ih k v hS.tail hm]
+        | gt =>
+          exfalso
+          simp only [List.mem_cons, Prod.mk.injEq] at hm
+          rcases hm with ⟨e, _⟩ | hm
+          · subst e; rw [cmpL_refl] at hc; cases hc
+          · exact cmpL_lt_asymm _ _ (hS.head_lt _ hm) ((cmpL_gt_iff _ _).mp hc)
+    exact this _ _ _ h.rS hrm
+
+/-! ## (c) nothing retained without trackers; collection empties the graveyard -/
+
+/-- with no registered tracker `delete` retains nothing -/
+theorem C08_no_tracker_retains_nothing (t : TableS) (g : Nat) (id : Key) (h : t.trackers = []) :
+    (delete t g id).1.grave = t.grave ∧ (delete t g id).1.graveRev = t.graveRev :=
+  delete_no_tracker t g id h
+
+/-- with a registered tracker a successful `delete` retains the object under the new revision -/
+theorem C08_tracker_retains (t : TableS) (h : TInv t) (g : Nat) (id : Key) (old : Obj)
+    (hold : t.primary.get id = some old) (hchg : (delete t g id).1 ≠ t) (htr : t.trackers ≠ []) :
+    (id, { old with rev := t.rev + 1 }) ∈ (delete t g id).1.grave ∧ (delete t g id).1.rev = t.rev + 1 := by
+  rcases delete_mem h g id with e | ⟨old', hold', _, hrev, _, _, hg, _⟩
+  · exact absurd e hchg
+  · rw [hold] at hold'; cases hold'
+    have hne : t.trackers.isEmpty = false := by cases hh : t.trackers <;> simp_all
+    exact ⟨(hg _ _).mpr (Or.inl ⟨hne, rfl, rfl⟩), hrev⟩
+
+/-- **collection empties the graveyard** of a table once every registered tracker has passed every
+    retained object -/
+theorem C08_collect_empties_when_caught_up (db : DB) (i : Nat) (h : TInv (tbl db.root i))
+    (hall : ∀ k o, (k, o) ∈ (tbl db.root i).graveRev → ∀ id ∈ (tbl db.root i).trackers, o.rev ≤ db.trackerRevOf id) :
+    (tbl (gcApply db (gcScan db)).root i).grave = [] ∧ (tbl (gcApply db (gcScan db)).root i).graveRev = [] := by
+  have e : tbl (gcApply db (gcScan db)).root i = gcTable (tbl db.root i) (deadKeys (gcScan db) i) :=
+    gcApply_getD db _ i
+  rw [e, deadKeys_gcScan]
+  exact gcTable_scan_empties h db hall
+
+/-- in particular when every tracker's revision has reached the table revision -/
+theorem C08_collect_empties_at_table_revision (db : DB) (i : Nat) (h : TInv (tbl db.root i))
+    (hall : ∀ id ∈ (tbl db.root i).trackers, (tbl db.root i).rev ≤ db.trackerRevOf id) :
+    (tbl (gcApply db (gcScan db)).root i).grave.length = 0 := by
+  have := (C08_collect_empties_when_caught_up db i h fun k o hm id hid =>
+    Nat.le_trans (h.grK _ _ hm).2 (hall id hid)).1
+  rw [this]; rfl
+
+/-- … and when no tracker is registered (no open iterator): nothing stays retained -/
+theorem C08_collect_empties_without_trackers (db : DB) (i : Nat) (h : TInv (tbl db.root i))
+    (hno : (tbl db.root i).trackers = []) :
+    (tbl (gcApply db (gcScan db)).root i).grave = [] :=
+  (C08_collect_empties_when_caught_up db i h fun k o _ id hid => by rw [hno] at hid; cases hid).1
+
+/-! ## every reachable state: retention, however the steps interleave -/
+
+/-- **retention**: in every reachable state, every key the consumer of an open, registered iterator still
+    holds and that is no longer live in the committed table is retained in the graveyard with a revision
+    above the iterator's delete cursor — that deletion is still to be delivered -/
+theorem C08_reachable_retention (s : St) (h : Reach s) (ci : Nat) (it : ChangeIter)
+    (hi : s.db.iters[ci]? = some it) (hc : it.closed = false)
+    (hl : Live s it) (id : Key) (hview : s.view ci id ≠ none)
+    (hdead : (tbl s.db.root it.table).primary.get id = none) :
+    ∃ g, (id, g) ∈ (tbl s.db.root it.table).grave ∧ it.deleteRevision < g.rev := by
+  have hs := (h.inv.reg ci it hi hc hl).synced
+  rcases hs.stale id hview with ⟨o, ho⟩ | hg
+  · exact absurd ho ((get_eq_none_iff (h.inv.rootT it.table).pS _).mp hdead o)
+  · exact hg
+
+/-- the tracker's mark the collector reads is the iterator's delete cursor -/
+theorem C08_reachable_mark (s : St) (h : Reach s) (ci : Nat) (it : ChangeIter)
+    (hi : s.db.iters[ci]? = some it) (hc : it.closed = false)
+    (hl : Live s it) :
+    s.db.trackerRevOf it.tracker = it.deleteRevision := (h.inv.reg ci it hi hc hl).mark
+
+/-- **no collector step — immediate, or the write of a scan paused arbitrarily long ago — removes an
+    object some open registered iterator has not been handed** -/
+theorem C08_collector_spares_undelivered (s : St) (h : Reach s) (dead : List (Nat × List Key))
+    (hd : dead = s.db.gcDead ∨ dead = gcScan s.db) (ci : Nat) (it : ChangeIter)
+    (hi : s.db.iters[ci]? = some it) (hc : it.closed = false)
+    (hl : Live s it) (k : Key) (g : Obj)
+    (hg : (k, g) ∈ (tbl s.db.root it.table).grave) (hlt : it.deleteRevision < g.rev) :
+    (k, g) ∈ (tbl (gcApply s.db dead).root it.table).grave := by
+  have hT := h.inv.rootT it.table
+  rw [(C08_apply_removes_exactly s.db dead it.table hT).2.1]
+  refine ⟨hg, fun hin => ?_⟩
+  have : ∃ ρ, revKey g.rev = revKey ρ ∧ ρ ≤ it.deleteRevision := by
+    rcases hd with e | e
+    · subst e
+      obtain ⟨ρ, e1, _, hall⟩ := h.inv.dead it.table _ hin
+      exact ⟨ρ, e1, hall ci it hi hc rfl hl⟩
+    · subst e
+      obtain ⟨ρ, e1, _, hall⟩ := h.inv.scan_ok it.table _ hin
+      exact ⟨ρ, e1, hall ci it hi hc rfl hl⟩
+  obtain ⟨ρ, e, hle⟩ := this
+  have hgk := hT.gK _ _ hg
+  have hgr := (hT.grK _ _ ((hT.gg g).mp (hgk ▸ hg))).2
+  have hdl := (h.inv.reg ci it hi hc hl).dle
+  have hb := hT.bound
+  have := revKey_inj _ _ (by omega) (by omega) e
+  omega
+
+/-- retained objects are invisible in every reachable state -/
+theorem C08_reachable_invisible (s : St) (h : Reach s) (i : Nat) (k : Key) (g : Obj)
+    (hg : (k, g) ∈ (tbl s.db.root i).grave) :
+    qGet (tbl s.db.root i) .id k 0 = none ∧ (∀ o ∈ qAll (tbl s.db.root i), o.id ≠ k) ∧
+    numObjects (tbl s.db.root i) = (qAll (tbl s.db.root i)).length :=
+  let hT := h.inv.rootT i
+  ⟨(grave_invisible hT k g hg).1, (grave_invisible hT k g hg).2.1, numObjects_eq_all hT⟩
+
+/-- in every reachable state, a collector run with all registered trackers caught up brings the number
+    of retained objects of the table back to zero -/
+theorem C08_reachable_collect_to_zero (s : St) (h : Reach s) (i : Nat)
+    (hall : ∀ k o, (k, o) ∈ (tbl s.db.root i).graveRev →
+      ∀ id ∈ (tbl s.db.root i).trackers, o.rev ≤ s.db.trackerRevOf id) :
+    (tbl (gcApply s.db (gcScan s.db)).root i).grave.length = 0 := by
+  rw [(C08_collect_empties_when_caught_up s.db i (h.inv.rootT i) hall).1]; rfl
+
+/-! ## non-vacuity -/
+
+/-- a table with a registered tracker, a live object and a retained deletion -/
+def c08Table : TableS :=
+  let t0 : TableS := { locked := true, trackers := [1] }
+  let o1 : Obj := { id := [1], val := 10, uvar := 0, tags := [], pfxs := [], up := false, ord := 0, rev := 0 }
+  let o2 : Obj := { id := [], val := 20, uvar := 0, tags := [], pfxs := [], up := false, ord := 1, rev := 0 }
+  (delete (modify (modify t0 0 o1 false).1 0 o2 false).1 0 [1]).1
+
+theorem c08Table_reach : TReach c08Table := by
+  refine TReach.step (TReach.step (TReach.step (TReach.init _ rfl rfl rfl rfl rfl)
+    (TStep.modify _ 0 _ false ?_)) (TStep.modify _ 0 _ false ?_)) (TStep.delete _ 0 [1] ?_)
+  all_goals decide
+
+/-- the invariant holds on it, its graveyard is not empty (the hypotheses of `C08_retained_invisible`,
+    `C08_grave_bijection` are satisfiable), and the object with the EMPTY key is live -/
+example : TInv c08Table ∧ c08Table.grave.length = 1 ∧ c08Table.primary.get [] ≠ none :=
+  ⟨c08Table_reach.tinv, by decide, by decide⟩
+
+/-- a database holding that table: the tracker has not passed the deletion, nothing is collected;
+    once its mark reaches the table revision the run empties the graveyard -/
+example :
+    let db : DB := { root := [c08Table], trackerRev := [(1, 2)] }
+    (tbl (gcApply db (gcScan db)).root 0).grave.length = 1 := by decide
+
+example :
+    let db : DB := { root := [c08Table], trackerRev := [(1, 3)] }
+    (tbl (gcApply db (gcScan db)).root 0).grave.length = 0 := by decide
+
+/-- a reachable database state in which an open, registered iterator has delivered an object that was
+    deleted afterwards: `wtxn; insert [1]; Changes(); commit; Next (all); wtxn; delete [1]; commit` -/
+private def oY : Obj := { id := [1], val := 7, uvar := 0, tags := [], pfxs := [], up := false, ord := 0, rev := 0 }
+private def r1 : St := { St.init with db := St.init.db.beginW true true }
+private def r2 : St := { r1 with db := setW r1.db 0 (modify (tbl (r1.db.wtxn.getD []) 0) 0 oY false).1 }
+private def r3 : St := { r2 with db := iterCreate r2.db 0 }
+private def r4 : St := { r3 with db := r3.db.commit }
+private def r5 : St :=
+  { db := (iterNext r4.db 0 r4.db.root [] (-1)).1,
+    log := fun j => if j = 0 then r4.log 0 ++ (iterNext r4.db 0 r4.db.root [] (-1)).2.1 else r4.log j }
+private def r6 : St := { r5 with db := r5.db.beginW true true }
+private def r7 : St := { r6 with db := setW r6.db 0 (delete (tbl (r6.db.wtxn.getD []) 0) 0 [1]).1 }
+private def r8 : St := { r7 with db := r7.db.commit }
+
+private theorem r4_reach : Reach r4 := by
+  have h1 : Reach r1 := Reach.step Reach.init (Step.beginW _ true true rfl)
+  have h2 : Reach r2 := Reach.step h1 (Step.write r1 (r1.db.wtxn.getD []) 0 _ rfl (WStep.modify _ 0 oY false (by decide)))
+  have h3 : Reach r3 := Reach.step h2 (Step.create r2 0)
+  exact Reach.step h3 (Step.commit r3)
+
+private theorem r8_reach : Reach r8 := by
+  have h5 : Reach r5 := by
+    exact Reach.step r4_reach (Step.next r4 0 (-1) r4.db.root [] (Or.inl rfl))
+  have h6 : Reach r6 := Reach.step h5 (Step.beginW _ true true (by decide +kernel))
+  have h7 : Reach r7 := Reach.step h6 (Step.write r6 (r6.db.wtxn.getD []) 0 _ rfl
+    (WStep.delete _ 0 [1] (by decide +kernel)))
+  exact Reach.step h7 (Step.commit r7)
+
+/-- the hypotheses of `C08_reachable_retention` hold there (so do those of `C08_collector_spares_undelivered`) … -/
+example : ∃ it, r8.db.iters[0]? = some it ∧ it.closed = false ∧
+    Live r8 it ∧ r8.view 0 [1] ≠ none ∧
+    (tbl r8.db.root it.table).primary.get [1] = none := by
+  refine ⟨(r8.db.iters[0]?).getD default, by with_unfolding_all rfl, ?_, Or.inl ?_, ?_, ?_⟩ <;> decide +kernel
+
+/-- … and its conclusion: the deleted object is retained above the iterator's delete cursor (which is 1) -/
+example : ∃ g, ([1], g) ∈ (tbl r8.db.root ((r8.db.iters[0]?).getD default).table).grave ∧
+    ((r8.db.iters[0]?).getD default).deleteRevision < g.rev :=
+  C08_reachable_retention r8 r8_reach 0 ((r8.db.iters[0]?).getD default) (by with_unfolding_all rfl)
+    (by decide +kernel) (Or.inl (by decide +kernel)) [1] (by decide +kernel) (by decide +kernel)
+
+example : ((r8.db.iters[0]?).getD default).table = 0 ∧ ((r8.db.iters[0]?).getD default).deleteRevision = 1 := by
+  decide +kernel
+
 end Sdb
